@@ -78,7 +78,8 @@ def job_tree(nev, seed):
         P.start()
         rvc.CTX.base = list(base0)
         events = [{'name': i, 'rate': rates[i]} for i in range(nev)]
-        this = {'events': events, 'htree': [], 'treeIsMade': False, 'sum_of_values': D(0)}
+        # the object may have been used before (trees are rebuilt when events are added): every member starts in an arbitrary state
+        this = {'events': events, 'htree': [newnode()], 'treeIsMade': True, 'sum_of_values': D(sp.Symbol('previous_sum', real=True))}
         def decl(ex, vd, ty, inner):
             if 'priority_queue' in ty:
                 ce = inner[0]
